@@ -87,6 +87,31 @@ func kConv(c J) interface{} {
 		target = reflect.New(st)
 		opts = append(opts, ucfg.VarExp)
 	}
+	if via := str(c, "via"); via == "splice" || via == "resolver" {
+		// the number arrives as text put together by variable expansion and is parsed again (parse.Value)
+		text := ""
+		vj, _ := c["v"].(map[string]interface{})
+		if s, ok := vj["i"].(string); ok {
+			text = s
+		} else if s, ok := vj["u"].(string); ok {
+			text = s
+		} else {
+			return J{"harness": "splice needs an integer"}
+		}
+		delete(src, "v")
+		st = reflect.StructOf([]reflect.StructField{{Name: "V", Type: t, Tag: `config:"w"`}})
+		target = reflect.New(st)
+		opts = append(opts, ucfg.VarExp)
+		if via == "splice" {
+			cut := len(text) / 2
+			src["hi"], src["lo"] = text[:cut], text[cut:]
+			src["w"] = "${hi}${lo}"
+		} else {
+			src["w"] = "${rv}"
+			opts = append(opts, buildOpts([]interface{}{map[string]interface{}{"o": "Resolve", "v": []interface{}{
+				map[string]interface{}{"name": "rv", "val": text, "cfg": map[string]interface{}{"array": true, "object": false}}}}})...)
+		}
+	}
 	cfg, err := ucfg.NewFrom(src, opts...)
 	if err != nil {
 		return J{"harness": "source: " + err.Error()}
